@@ -13,6 +13,10 @@ CHECKS = {
          "Every generated non-accepting authentication attempt (validator reject/fail, malformed or foreign message in place of the password, EOF), with any pipelined continuation, segmentation and a failing write, must end without AuthenticationOk, session output or any callback; exploration is the right level because the space of continuations is unbounded and the defect class (control flow falling through) shows on almost every rejected run.", "3 C01"),
  "C02": ("exploration", E1, "deterministic simulation: seeded handler programs and client histories with injected failing/transient writes, strict independent backend-message grammar over the wire tap (also a monitor in every other check)",
          "The accepted byte stream of every run must parse exactly under an independent strict grammar; exploration over handler programs x client histories x write faults.", "3 C02"),
+ "C03": ("exploration", E1, "deterministic simulation: the same client bytes under many seeded segmentations (differential of the real code against itself), metamorphic surplus-byte removal, accessor sequences over the segmenting reader against an independent cursor",
+         "Transcript, output length and callback trace must not depend on how the byte stream is cut into reads, nor on grammar-external bytes inside a message's declared length; accessors never read beyond the current message.", "3 C03"),
+ "C04": ("fault_enumeration", E1, "deterministic simulation with exhaustive transport-fault placement: every read index, input byte offset and write index of each corpus session, plus seeded hostile inputs; child-process isolation attributes crashes to the recorded case",
+         "For a fixed corpus of sessions covering every phase each position at which the transport can start failing is enumerated (not sampled); hostile byte strings, field-level mutations and helper abuse are sampled. Oracles: process survival, bounded termination, bystander service, allocation bound, prefix property under faults.", "3 C04"),
  "C05": ("exploration", E1, "deterministic simulation: seeded simple-query histories and handler programs, refinement against the executable reference model (cycle + DataWriter state machine)",
          "Each Query's replies and every value the handler observes (Written(), errors of Row/Complete/... ) are compared message by message with the reference model.", "3 C05"),
  "C06": ("exploration", E1, "deterministic simulation: seeded extended-protocol histories with scripted failures, refinement against the reference model with discard-until-Sync, quiescence snapshots for 'delivered without waiting'",
@@ -23,8 +27,14 @@ CHECKS = {
          "Parameters are zero-copy windows into the connection's read buffer created at Bind and consumed at a later Execute, so the guarantee depends on the message history in between; every observed count/value/format/Scan result and the portal's RowDescription/DataRow formats are compared with the model.", "3 C08"),
  "C09": ("exploration", E1, "deterministic simulation: seeded typed rows in many Go representations and NULL spellings, both formats, varying encode history per connection; every DataRow decoded by independent codecs",
          "Each accepted row must arrive as one DataRow whose fields decode (independent text and binary decoders) to the written values, NULL as length -1; the encode path memoises plans per connection, so the order in which Go types were encoded earlier is part of the explored space.", "3 C09"),
+ "C10": ("exploration", E1, "deterministic simulation: enumerated boundary grid (limit x type x size x position) plus seeded sizes up to 2^32-5 with synthetic bodies that spell valid messages, size-rule model, allocation counters, segmentation of the skipped body",
+         "Boundary exactness (L vs L+1), full skipping in several chunks, exactly one 54000 error, recovery of the next message, connection end during startup/authentication, sub-minimum lengths; the boundary grid is enumerated completely, the rest is seeded.", "3 C10"),
  "C12": ("exploration", E1 + " + " + E2 + " (-race shard)", "deterministic simulation: seeded startup packets and configurations, multiset model of the startup reply, context read-back in callbacks, map immutability; concurrent users under seeded schedules with the HB-transparent race oracle",
          "Client parameters seen in callbacks equal the packet's pairs, the startup reply announces exactly the configured set once, the user's map is unchanged and never raced on, cancel packets get no reply and no callback.", "3 C12"),
+ "C14": ("exploration", E1, "deterministic simulation where the chunking of the COPY stream into CopyData messages is the schedule: exhaustive 2- and 3-piece splits of short streams, seeded splits and corruptions, independent binary-COPY encoder, row equality",
+         "Rows returned by the library's row reader must equal the rows encoded by an independent encoder for every split of the stream; trailer/CopyDone are end-of-stream; corrupt rows are errors, never rows or crashes.", "3 C14"),
+ "C18": ("exploration", E1, "deterministic simulation: callbacks retain zero-copy data across seeded later traffic sized around the 4 KiB allocation granule and the limit; retained-vs-private-copy comparison, white-box buffer-window probes",
+         "Every retained query text, parameter value, client parameter and password must keep its content after any later message history; probes show both buffer-reuse branches were reached.", "3 C18"),
  "C19": ("exploration", E1, "deterministic simulation: seeded middleware chains, failure positions, terminate hooks and command histories; event-order monitor plus context inspection inside every callback",
          "Order and once-only execution of middlewares, context propagation into every parser/statement call, cancellation of per-command contexts, failing middleware ends the connection, Terminate hook exactly once.", "3 C19"),
  "C13": ("exploration", E1, "deterministic simulation: seeded COPY-in sub-protocol histories and handler read plans, COPY model + exactly-once abort cycle count",
